@@ -405,8 +405,35 @@ def group_algebra_mc(rep: Report, pid: str, thorough: bool) -> None:
     rep.count("group_table_vectors_replayed", total)
 
 
+def _nf_extra(rep: Report, spec: str, sel: str, invs: list[str], dump: bool, props=(), constraint=None, timeout=1500):
+    """Another configuration of MarkerNormalForm (Proj: larger inputs x projections; Closure: results as operands)."""
+    tmp = tempfile.mkdtemp(prefix="verif_nfx_")
+    try:
+        cfgp = os.path.join(tmp, "c.cfg")
+        open(cfgp, "w").write(f'SPECIFICATION {spec}\nCONSTANTS\n Vars = {{"p", "r"}}\n Dom = {{1, 2, 3}}\n AtomSel <- {sel}\n' +
+                              "".join(f"INVARIANT {i}\n" for i in invs) + "".join(f"PROPERTY {q}\n" for q in props) +
+                              (f"CONSTRAINT {constraint}\n" if constraint else "") + "CHECK_DEADLOCK FALSE\n")
+        d = os.path.join(tmp, "d")
+        r = tla.run_tlc("MarkerNormalFormMC.tla", cfgp, workers=16, args=(["-dump", d] if dump else []), heap="6g", timeout=timeout)
+        if r.violated:
+            rep.violation(f"{rep.pid}:spec:MarkerNormalForm:{spec}:{r.violated}", f"TLC: {r.violated} violated in {spec}", {"tlc_tail": r.out[-2500:]})
+            return []
+        tla.require_ok(r, f"TLC MarkerNormalForm {spec}")
+        rep.add("states", r.distinct)
+        rep.add("transitions", r.generated)
+        rep.cov.setdefault("tlc_runs", []).append({"module": "MarkerNormalForm", "spec": spec, "atoms": sel, "invariants": invs + list(props), "distinct": r.distinct, "wall_s": round(r.wall, 1)})
+        return [s for s in tla.load_dump(d + ".dump") if s["op"] != "init"] if dump else []
+    finally:
+        shutil.rmtree(tmp, ignore_errors=True)
+
+
 def normal_form_mc(rep: Report, pid: str, thorough: bool) -> None:
     """TLC on MarkerNormalForm (the transcribed rewriting engine) + replay of every transition."""
+    if pid == "C12":
+        # projections: the Proj configuration (larger inputs, every variable) is the relevant one
+        states = _nf_extra(rep, "ProjSpec", "SelQuick" if thorough else "SelProj", ["Projections", "ResultNormal"], dump=True)
+        _nf_replay(rep, pid, states)
+        return
     tmp = tempfile.mkdtemp(prefix="verif_nf_")
     try:
         cfgp = os.path.join(tmp, "c.cfg")
@@ -425,12 +452,14 @@ def normal_form_mc(rep: Report, pid: str, thorough: bool) -> None:
         states = [s for s in tla.load_dump(d + ".dump") if s["op"] != "init"]
     finally:
         shutil.rmtree(tmp, ignore_errors=True)
-    if pid == "C12":
-        states = [s for s in states if s["op"] not in ("and", "or")]
-    elif not thorough:
+    if not thorough:
         import random
         random.Random(rep.seed).shuffle(states)
         states = states[:12000]
+    _nf_replay(rep, pid, states)
+
+
+def _nf_replay(rep: Report, pid: str, states: list) -> None:
     size = max(1, len(states) // 48)
     total = 0
     with mp.Pool(16) as pool:
@@ -454,6 +483,8 @@ def run(pid: str, tier: str, replay: str | None = None) -> int:
         normal_form_mc(rep, pid, thorough)
     if pid in ("C02", "C15"):
         group_algebra_mc(rep, pid, thorough)
+        # results fed back as operands, breadth-first to depth 3 (design level only)
+        _nf_extra(rep, "ClosureSpec", "SelQuick" if thorough else "SelTiny", ["ClosureNormal"], dump=False, props=["ClosureSound"], constraint="ClosureBound")
     marker_sessions(rep, (pid,), n_random=(8000 if thorough else 900), n_law=(3000 if thorough else 400))
     rep.set(rule="random marker sessions (2-3 parsed markers of depth <= 2 over 2-3 variables, then &, |, reparse, only, exclude, "
                  "without_extras on earlier results); truth tables from the real evaluate() on the region grid of the session's literals; "
